@@ -303,7 +303,7 @@ func (ci *ConstructorInvoker) InvokeFunc(
 	// Check for error return
 	if info.HasErrorReturn && len(results) > 0 {
 		lastResult := results[len(results)-1]
-		if !lastResult.IsNil() {
+		if !isNoError(lastResult) {
 			if err, ok := lastResult.Interface().(error); ok {
 				return nil, fmt.Errorf("constructor error: %w", err)
 			}
@@ -311,6 +311,18 @@ func (ci *ConstructorInvoker) InvokeFunc(
 	}
 
 	return results, nil
+}
+
+// isNoError reports whether an error result means "no error": nil for the
+// error interface and other nillable types, the zero value for an error type
+// that cannot be nil (an errno-style integer or a struct).
+func isNoError(v reflect.Value) bool {
+	switch v.Kind() {
+	case reflect.Interface, reflect.Pointer, reflect.Map, reflect.Slice, reflect.Func, reflect.Chan, reflect.UnsafePointer:
+		return v.IsNil()
+	}
+
+	return v.IsZero()
 }
 
 // invokeWithRecovery calls the constructor and recovers from any panics.
